@@ -98,6 +98,8 @@ def build_orbit(node, spec, propagator=None):
         eph = src.ephem(start=start, stop=td(node, spec["dur_s"]), step=td(node, spec["step_s"]))
         if spec.get("interp"):
             eph.method = spec["interp"]  # e.g. "linear" (an OEM may ask for it)
+        if spec.get("order"):
+            eph.order = spec["order"]  # set before the first use
         if spec.get("in_frame"):
             # an ephemeris handed over in another frame (e.g. the topocentric frame of a station registered on this node)
             eph.frame = node.frames.get_frame(spec["in_frame"])
@@ -127,7 +129,7 @@ def epoch_of(obj):
 
 
 def date_key(d):
-    return f"{d._d}:{float(d._s).hex()}:{d.scale.name}"
+    return f"{d.d}:{float(d.s).hex()}:{d.scale.name}"
 
 
 def digest_state(sv):
